@@ -52,6 +52,7 @@ struct Exec{
   std::vector<long> nallocs;            // library allocations per operation (fault-free pass)
   uint64_t shape; bool nontrivial; long skipped,executed;
   bool count_only;
+  std::string plan_prop;                // property of the plan: a crash inside an operation of that property's domain is attributed to it
   std::vector<std::string> opkinds;     // kind of every executed operation, by index
 
   Exec():fault_op(-1),fault_k(0),shape(1469598103934665603ULL),nontrivial(false),skipped(0),executed(0),count_only(false){}
@@ -62,12 +63,17 @@ struct Exec{
   // ---- bookkeeping around one library operation
   void begin(const std::string& kind,const char* attr){
     c.opkind=kind; c.attr=c.fault_fired_in_run?"C16":attr;
+    if(c.attr=="C15"){
+      if(plan_prop=="C09" && kind.compare(0,4,"stmt")==0) c.attr="C09";
+      else if(plan_prop=="C08" && (kind.compare(0,4,"stmt")==0||kind=="copy_ctor"||kind=="move_ctor"||kind=="copy_assign"||kind=="move_assign"||kind=="set_backing"||kind=="destroy")) c.attr="C08";
+    }
     verif::alloc_tag(c.opi);
     if((int)opkinds.size()<=c.opi) opkinds.resize(c.opi+1);
     if(c.opi>=0) opkinds[c.opi]=kind;
+    bool arm=(c.opi==fault_op && fault_k>0);
+    if(arm && c.attr!="C14") c.attr="C16";
     if(c.trace_ops){ printf("O %d %s %s\n",c.opi,kind.c_str(),c.attr.c_str()); fflush(stdout); }
-    if(c.opi==fault_op && fault_k>0){ verif::alloc_fail_at(fault_k); if(c.attr!="C14") c.attr="C16"; }
-    else verif::alloc_fail_at(0);
+    verif::alloc_fail_at(arm?fault_k:0);
   }
   // returns true if the planned fault fired in this operation
   bool end(){
